@@ -361,7 +361,7 @@ func c13ReplayRun(c *ctx, rd *c13Reader) {
 	r := rand.New(rand.NewSource(1))
 	var env *c13Env
 	needEnv := map[string]bool{"corre": true, "extended": true, "additive": true, "multiply": true, "alter": true}
-	if needEnv[cs.What] {
+	if needEnv[cs.What] || (cs.What == "aliasing" && cs.Mode != "randomot") {
 		env = c.c13NewEnv(rd, cs.SetupSeed)
 		if env == nil {
 			return
@@ -407,6 +407,8 @@ func c13ReplayRun(c *ctx, rd *c13Reader) {
 		env.additiveCase(cs)
 	case "concurrent":
 		c.c13ConcReplay(rd, cs)
+	case "aliasing":
+		c.c13AliasReplay(rd, env, cs)
 	case "multiply", "alter":
 		out := env.mulJudge(cs, cs.Msg != "R1", true)
 		fmt.Println("replay outcome:", out.Outcome, "prediction:", out.Pred, out.PredNote)
